@@ -192,7 +192,17 @@ func c07AllocCase(r *Run, rng *Rng, nops, nacc int) {
 // c07FaultWitness replays one (register, RegCount, lane) read on both real stores and compares the
 // fault outcome with what theorem read_faults_agree_every_operand_refuted lists.
 func c07FaultWitness(r *Run, name, timWf string, reg insts.RegType, rc, lane int, wantEmu, wantTim string) {
+	c07FaultWitnessOp(r, name, "rb", timWf, reg, rc, lane, wantEmu, wantTim)
+}
+
+func c07FaultWitnessOp(r *Run, name, kind, timWf string, reg insts.RegType, rc, lane int, wantEmu, wantTim string) {
 	op := fmt.Sprintf("rb 0 %d %d %d 8", reg, rc, lane)
+	switch kind {
+	case "r":
+		op = fmt.Sprintf("r 0 %d %d %d", reg, rc, lane)
+	case "w":
+		op = fmt.Sprintf("w 0 %d %d %d 1122334455667788", reg, rc, lane)
+	}
 	class := func(tok string) string {
 		if strings.HasPrefix(tok, "fault:") {
 			return tok
@@ -230,6 +240,12 @@ func runC07Deep(r *Run, rng *Rng, replay string) {
 	c07FaultWitness(r, "v0-x17", "0:0:0:0:0", insts.V0, 17, 0, "fault:bounds", "ok")
 	c07FaultWitness(r, "v252-lane63-voff16", "0:12736:16:16:4", insts.V0+252, 0, 63, "ok", "fault:bounds")
 	c07FaultWitness(r, "flatscratchlo-x17", "0:0:0:0:0", insts.FlatSratchLo, 17, 0, "fault:bounds", "fault:unsupported")
+	// ReadOperand / WriteOperand (theorem operand_fault_disagreements and its example)
+	c07FaultWitnessOp(r, "r-s100-x4-agree", "r", "0:0:0:0:0", insts.S0+100, 4, 0, "ok", "ok")
+	c07FaultWitnessOp(r, "r-s101-x2", "r", "0:0:0:0:0", insts.S0+101, 2, 0, "fault:bounds", "ok")
+	c07FaultWitnessOp(r, "w-exechi-pair", "w", "0:0:0:0:0", insts.EXECHI, 2, 0, "fault:unsupported", "ok")
+	c07FaultWitnessOp(r, "w-s101-x2", "w", "0:0:0:0:0", insts.S0+101, 2, 0, "fault:bounds", "ok")
+	c07FaultWitnessOp(r, "w-s0-x4-both", "w", "0:0:0:16:4", insts.S0, 4, 0, "fault:bounds", "fault:bounds")
 
 	n, nacc := 60, 120
 	if r.Tier == "thorough" {
